@@ -148,7 +148,7 @@ let judge_direct kind ins outs =
       let rt = if one "rt" o = Some "ok" then post_of "rpd" "rpp" else None in
       let pred = unmarshal_post x (marshal_post x e) in
       let same a b = match a, b with Some p, Some q -> post_eq p q | None, None -> true | _ -> false in
-      if not (same rt (Some e)) then
+      if not (pd_rt_ok e rt) then
         (if same pred rt && nu <> [] then lossy "postdata" else VPropfail ("json_roundtrip", "unexplained-difference-after-json-round-trip"))
       else if not (same pred rt) then VDisagree "model-roundtrip-differs"
       else
@@ -173,7 +173,7 @@ let judge_direct kind ins outs =
            let pred = unmarshal_content x j in
            let same a b = match a, b with Some p, Some q -> content_eq p q | None, None -> true | _ -> false in
            let is_b64 = e.ct_enc = cs "base64" in
-           if is_b64 && not (same rt (Some e)) then
+           if is_b64 && not (ct_rt_ok e rt) then
              (if same pred rt && nu <> [] then lossy "content" else VPropfail ("json_roundtrip", "unexplained-difference-after-json-round-trip"))
            else if not (same pred rt) then VDisagree "model-roundtrip-differs"
            else (match content_of "jct" with
@@ -255,7 +255,7 @@ let judge _name ins outs =
              VPropfail ("postdata_is_origin_body", Printf.sprintf "capture=%b chunked=%b body=%s got_%s" cap (is_chunked te) (short body) got)
          | _ ->
              let explained = (match roundtrip_req x e, rt with
-                 | Some p, Some r -> hreq_eq p r && nu <> []
+                 | Some p, Some r -> hreq_eq p r && not (req_strings_b x e)
                  | _ -> false) in
              VPropfail ("json_roundtrip",
                         if explained then "non-utf8-string-replaced n=" ^ string_of_int (List.length nu)
@@ -303,9 +303,10 @@ let judge _name ins outs =
     let rt = match one "rt" o with Some "ok" -> Some (hres_of env o "r") | _ -> None in
     let ce = hget k_ce hdrs in
     let why () =
+      (* C16_guard_is_absence_of_known_defects: coding_case_b / zlib_b are exactly the failures of the guard *)
       if body = [] then "empty-body-with-content-encoding ce=" ^ str ce
-      else if lower_s ce <> ce then "content-coding-case ce=" ^ str ce
-      else if lower_s ce = cs "deflate" && x.inflate_raw body = None && x.inflate_http body <> None then "deflate-zlib-format"
+      else if coding_case_b ce then "content-coding-case ce=" ^ str ce
+      else if zlib_b x m then "deflate-zlib-format"
       else "unexplained" in
     if not (c16_res_ok x cap m ob rt) then begin
       match ob with
@@ -324,7 +325,7 @@ let judge _name ins outs =
          | 2 -> VPropfail ("content_is_decoded_body", Printf.sprintf "%s capture=%b size=%s text=%s" (why ()) cap (dec_of_z e.e_content.ct_size) (short e.e_content.ct_text))
          | _ ->
              let explained = (match roundtrip_res x e, rt with
-                 | Some p, Some r -> hres_eq p r && nu <> []
+                 | Some p, Some r -> hres_eq p r && not (res_strings_b x e)
                  | _ -> false) in
              VPropfail ("json_roundtrip",
                         if explained then "non-utf8-string-replaced n=" ^ string_of_int (List.length nu)
